@@ -948,7 +948,11 @@ func c39CraftFrame(g *vkit.Rand, zhdr []byte, zfirst *bool, giant uint32) c39HFr
 		}
 		return c39HFrame{Bytes: b, Kind: "ctl-unknown"}
 	case 8:
-		return c39HFrame{Bytes: g.Bytes(g.Intn(40)), Kind: "random"}
+		b := g.Bytes(g.Intn(40))
+		if len(b) > 5 && !g.Chance(1, 8) {
+			b[5] = 0 // as a data frame it would otherwise announce (and get) ~8 MiB: allowed by the bound, but slow
+		}
+		return c39HFrame{Bytes: b, Kind: "random"}
 	default: // valid ping: a sentinel whose boundary must survive
 		return c39HFrame{Bytes: c39Ctl(6, 0, 4, be32(1+uint32(g.Intn(1000)))), Kind: "ping"}
 	}
@@ -1458,7 +1462,7 @@ func c39(r *vkit.Run) {
 	if d := os.Getenv("VERIF_C39_DEV_DIV"); d != "" { // development only: smaller run
 		fmt.Sscan(d, &div)
 	}
-	nRT := r.N(40000, 1200000) / div
+	nRT := r.N(12000, 400000) / div
 	nMutPer := 2
 	if os.Getenv("VERIF_C39_DEV_NOMUT") != "" {
 		nMutPer = 0
@@ -1493,7 +1497,7 @@ func c39(r *vkit.Run) {
 
 	phase("roundtrip+mutations")
 	// ---- phase 2b (parallel): crafted hostile streams, announcements <= 1 MiB
-	nCraft := r.N(60000, 1500000) / div
+	nCraft := r.N(40000, 800000) / div
 	vkit.Parallel(nCraft, 0, func(i int) {
 		g := r.Rng("craft", i)
 		h := c39GenHostile(g, zhdr, 1<<20)
@@ -1509,7 +1513,7 @@ func c39(r *vkit.Run) {
 
 	phase("crafted")
 	// ---- phase 3 (single goroutine): allocation bound on crafted streams and on valid sequences
-	nAlloc := r.N(12000, 200000) / div
+	nAlloc := r.N(8000, 100000) / div
 	for i := 0; i < nAlloc; i++ {
 		g := r.Rng("alloc", i)
 		var h *c39Hostile
